@@ -1,4 +1,5 @@
 import ShootVerif.Proofs.MapperExec
+import ShootVerif.Proofs.MapperTables
 /-!
 C09 — ToX and FromX never panic and FromX fully resets its receiver.
 
@@ -10,10 +11,12 @@ either runs completely or is skipped.
 
 The theorems hold for EVERY nil assignment `N` (any list of slot names, not only the sampled masks)
 and every receiver state. `WF09` = plain exported structs, mapper type not embedded by pointer (or not
-used), and the emitted path tables are closed: every embedded pointer crossed by a guard entry / an
-allocation entry / a statement's read or write is tested, respectively allocated, earlier in the
-list. That closure is a decidable clause evaluated per input (the driver prints the region); it is
-not derived here from the sort order of the generator — see `C09_tables_partial`.
+used), every emitted selector resolves (by Go's rule) to the field the generator means, and no promoted
+field is named like an embedded pointer type. The closure of the emitted tables — every embedded
+pointer crossed by a guard entry / an allocation entry / a statement's read or write is tested,
+respectively allocated, EARLIER in the list — is not assumed: `C09_tables_closed` derives it from the
+generator's own `sort.Strings` (a proper prefix path is a proper prefix of the dotted string, so it
+sorts first; Model/MapSort.lean, Proofs/MapperTables.lean).
 -/
 namespace ShootVerif.Mapper
 
@@ -38,8 +41,11 @@ theorem fnOk (mp : Option Bool) (b : Bool) (cs : List Claim) (h : (mp != some tr
 theorem C09_no_panic (inp : Input) (h : WF09 inp = true) (N : List String) :
     execTo inp N = .value (idealTo inp (plan inp) (tables inp (plan inp)) N) ∧
     ∀ recv, execFrom inp N recv = .value (idealFrom inp (plan inp) (tables inp (plan inp)) N) := by
+  have ht := tablesOk_of_WF09 inp h
+  simp only [TablesOk, Bool.and_eq_true, List.all_eq_true] at ht
+  obtain ⟨⟨⟨hcD, hcS⟩, htTo⟩, htFrom⟩ := ht
   simp only [WF09, Bool.and_eq_true, Bool.not_eq_true', List.all_eq_true] at h
-  obtain ⟨⟨⟨⟨⟨⟨hs, hd⟩, hm⟩, hcD⟩, hcS⟩, htTo⟩, htFrom⟩ := h
+  obtain ⟨⟨⟨⟨⟨⟨hs, hd⟩, hm⟩, _⟩, _⟩, _⟩, _⟩ := h
   have hctor := plan_plain_ctors inp hs hd
   have hm' : (inp.mapperPtr != some true || !hasFunc (plan inp).toStmts) = true ∧
       (inp.mapperPtr != some true || !hasFunc (plan inp).fromStmts) = true := by
@@ -94,19 +100,20 @@ theorem C09_skip_iff (rs ws : SideSem) (N : List String) (w : WSt) (c : Claim) (
   · intro h; simp [idealStmt, hr, hw, h]
   · intro h v hv; simp [idealStmt, hr, hw, h, hv]
 
-/-- the read guard computed by `prepareReadPaths` names only embedded pointers that are proper
-    prefixes of the field's path (so a guard never tests an unrelated pointer). The converse direction
-    and the outermost-first ORDER after `sort.Strings` are the closure clauses of `WF09`. -/
-theorem C09_tables_partial (pp : List (List String)) (f : Field) :
-    ∀ g ∈ readPaths pp f, g ∈ pp ∧ ∃ i, 0 < i ∧ i < f.path.length ∧ g = f.path.take i := by
-  intro g hg
-  simp only [readPaths, List.mem_filter, List.mem_filterMap, List.mem_range, List.contains_iff_mem] at hg
-  obtain ⟨⟨i, hi, he⟩, hp⟩ := hg
-  refine ⟨hp, i, ?_⟩
-  by_cases h0 : i = 0
-  · simp [h0] at he
-  · simp only [h0, ↓reduceIte, Option.some.injEq] at he
-    exact ⟨Nat.pos_of_ne_zero h0, hi, he.symm⟩
+/-- the closure of the emitted guard and allocation lists, derived from the generator's sort: under
+    WF09 every statement's guard is a chain that tests exactly the pointers its read crosses, the
+    allocation lists are chains and hold every pointer a statement's write crosses -/
+theorem C09_tables_closed (inp : Input) (h : WF09 inp = true) : TablesOk inp = true :=
+  tablesOk_of_WF09 inp h
+
+/-- the two facts behind it, for ALL inputs: `condofread`'s sorted guard is a chain over exactly the
+    crossed pointers, and a crossed pointer's dotted path sorts before the path it lies on -/
+theorem C09_guard_chain (pp : List (List String)) (f : Field) :
+    chainOk pp [] (readGuard pp f) = true ∧ ∀ h, h ∈ readGuard pp f ↔ h ∈ hops pp f.path :=
+  ⟨readGuard_chain pp f, readGuard_mem pp f⟩
+
+theorem C09_prefix_sorts_first (pp : List (List String)) (p h : List String) (hh : h ∈ hops pp p) :
+    MapSort.ltCodes (pathCodes h) (pathCodes p) = true := hops_lt pp p h hh
 
 /-! ### non-vacuity -/
 
